@@ -59,6 +59,24 @@ def run(rep, tier, seed, replay):
             oracle = "chunk independence: the same bytes decode differently when split into reads of sizes %s than when delivered at once" % sz
         elif canon[i] == "canon":
             oracle = "round trip / concatenation: the stream is the canonical encoding of the values the (proved) model decodes, the implementation decodes something else"
+        if oracle is None:
+            # an inline command must decode to the same request as its array form (C10_inline): look for a case (buffer >= 32)
+            # whose stream starts with an inline line and whose first decoded message differs from the array of its words
+            for j in sorted(big, key=lambda j: len(cases[j]))[:400]:
+                Bj, ej, szj, hxj = cases[j].split(" ")
+                data = bytes.fromhex(hxj)
+                if not data or data[:1] in (b"+", b"-", b":", b"$", b"*") or b"\r\n" not in data:
+                    continue
+                line = data[:data.index(b"\r\n")]
+                words = [w for w in line.split(b" ") if w]
+                if not words or b"\n" in line or len(line) + 2 > int(Bj) * 64:
+                    continue
+                want = "A%d %s" % (len(words), " ".join("B" + w.hex() for w in words))
+                got = impl[j].split("|")[0].split("!")[0]
+                if got != want and mch[j].split("|")[0].split("!")[0] == want:
+                    i, B, e, sz, hx = j, Bj, ej, szj, hxj
+                    oracle = "an inline command must decode to the same request as its array form: '%s' decoded to %s" % (line.decode("latin1")[:60], got[:120])
+                    break
         if oracle:
             found.append(1)
             rep.violation({"kind": "input", "mode": "c10dec", "oracle": oracle,
